@@ -557,6 +557,9 @@ Qed.
 Lemma mature_winv w l : winv w -> winv (set_links w l).
 Proof. intros H. eapply winv_frame; [apply frame_set_links|exact H]. Qed.
 
+Lemma on_pair_winv w a b f : winv w -> winv (on_pair w a b f).
+Proof. intros H. now apply mature_winv. Qed.
+
 Theorem step_winv w e : winv w -> winv (fst (step w e)).
 Proof.
   intros H. destruct e; cbn [step].
@@ -569,13 +572,16 @@ Proof.
   - now apply accept_winv.
   - now apply drop_listener_winv.
   - now apply stream_op_winv.
+  - now apply on_pair_winv.
   - now apply mature_winv.
-  - now apply mature_winv.
+  - now apply on_pair_winv.
+  - now apply on_pair_winv.
+  - now apply on_pair_winv.
   - pose proof (drain_links_winv (length (w_links w)) w h H) as D. unfold panic_res.
     destruct (drain_links w h (length (w_links w))) as [w1 p]. cbn in *. destruct p; exact D.
   - now apply partition_winv.
   - now apply partition_winv.
-  - now apply mature_winv.
+  - now apply on_pair_winv.
   - pose proof (loop_step_winv w h H) as D. unfold panic_res.
     destruct (do_loop_step w h) as [w1 p]. cbn in *. destruct p; exact D.
   - exact H.
@@ -703,8 +709,8 @@ Proof.
   intros h. unfold client_entry, has_sk. cbn. apply andb_false_r.
 Qed.
 
-Lemma conns_link_send_seg w s d c sd p :
-  w_conns (link_send w s d {| m_cid := c; m_body := WSeg sd p |}) = w_conns w.
+Lemma conns_link_send_seg w s d c sd p pk :
+  w_conns (link_send w s d {| m_cid := c; m_body := WSeg sd p; m_parked := pk |}) = w_conns w.
 Proof.
   unfold link_send. destruct (find _ _); [|reflexivity]. destruct (cut_from _ _); reflexivity.
 Qed.
@@ -839,7 +845,7 @@ Qed.
 
 Lemma conns_flush_fold (k : conn) c (out : list (S.side * S.pkt)) : forall w1,
   w_conns (fold_left (fun (w' : world) (sp : S.side * S.pkt) =>
-     let m := {| m_cid := c; m_body := WSeg (fst sp) (snd sp) |} in
+     let m := {| m_cid := c; m_body := WSeg (fst sp) (snd sp); m_parked := false |} in
      if S.lo (k_sys k) then loop_send w' (k_host k) m
      else match msg_src w' m, msg_dst w' m with
           | Some s, Some d => link_send w' s d m
@@ -851,9 +857,9 @@ Proof.
   destruct (msg_src _ _); [|reflexivity]. destruct (msg_dst _ _); [|reflexivity]. apply conns_link_send_seg.
 Qed.
 
-Lemma abandon_rst_resets_acceptor w d c k :
+Lemma abandon_rst_resets_acceptor w d c k pk :
   get_conn w c = Some k ->
-  exists k', get_conn (fst (deliver_msg w d {| m_cid := c; m_body := WSeg S.A S.PRst |})) c = Some k' /\
+  exists k', get_conn (fst (deliver_msg w d {| m_cid := c; m_body := WSeg S.A S.PRst; m_parked := pk |})) c = Some k' /\
              forall h, server_entry h k' = false.
 Proof.
   intros Hc. unfold deliver_msg. cbn [m_body m_cid fst]. unfold flush.
